@@ -132,10 +132,7 @@ class ApplicationFileScanner:
                 "Provided path '%s' is a valid file. Adding.",
                 next_path,
             )
-            normalized_path = (
-                next_path.replace(os.altsep, os.sep) if os.altsep else next_path
-            )
-            files_to_parse.add(normalized_path)
+            files_to_parse.add(os.path.normpath(next_path))
             did_find_any = True
         else:
             LOGGER.debug(
@@ -155,9 +152,7 @@ class ApplicationFileScanner:
         eligible_extensions: List[str],
     ) -> None:
         LOGGER.debug("Provided path '%s' is a directory. Walking directory.", next_path)
-        normalized_next_path = (
-            next_path.replace(os.altsep, os.sep) if os.altsep else next_path
-        )
+        normalized_next_path = os.path.normpath(next_path)
         for root, _, files in os.walk(normalized_next_path):
             normalized_root = root.replace(os.altsep, os.sep) if os.altsep else root
             if not recurse_directories and normalized_root != normalized_next_path:
